@@ -191,6 +191,46 @@ def fast_commit_case(src, asan, idx, seed, tier):
     return {"kind": "journal", "base": bname, "journal": "fast commit", "note": "fast-commit block: head tag, then %s" % which, "damage": [], "case_index": idx}, bad, nrun
 
 
+def tiny_geometry_case(src, asan, idx, seed, tier):
+    """one-group filesystems whose per-group counts are not multiples of 8 (12 inodes per group; 1001 blocks per group):
+    tools that size a buffer by count / 8 and then look at every bit of the group read past it"""
+    env = e2v.tool_env(src)
+    T = lambda p_: os.path.join(asan, p_)
+    img = os.path.join(WORK, "tiny_%d.img" % idx)
+    e2v.sh([os.path.join(src, "misc/mke2fs"), "-q", "-F", "-t", "ext2", "-b", "1024", "-N", "16", img, "1M"], env=env, timeout=60)
+    d = bytearray(open(img, "rb").read())
+    which = ["ipg12", "ipg9", "bpg1001"][idx % 3]
+    if which.startswith("ipg"):
+        n = int(which[3:])
+        struct.pack_into("<I", d, 1024 + 0, n)
+        struct.pack_into("<I", d, 1024 + 0x28, n)
+        struct.pack_into("<I", d, 1024 + 0x10, min(struct.unpack_from("<I", d, 1024 + 0x10)[0], 1))
+    else:
+        struct.pack_into("<I", d, 1024 + 4, 1002)
+        struct.pack_into("<I", d, 1024 + 0x20, 1001)
+        struct.pack_into("<I", d, 1024 + 0x24, 1001)
+    open(img, "wb").write(d)
+    bad, nrun = [], 0
+    for label, cmd in (("dumpe2fs", [T("misc/dumpe2fs"), img]), ("e2fsck -fn", [T("e2fsck/e2fsck"), "-fn", img]), ("debugfs stats", [T("debugfs/debugfs"), "-R", "stats", img]),
+                       ("debugfs ffb/ffi", [T("debugfs/debugfs"), "-f", "-", img]), ("e2freefrag", [T("misc/e2freefrag"), img]), ("resize2fs -P", [T("resize/resize2fs"), "-P", img])):
+        rc, why = run_san(cmd, env) if label != "debugfs ffb/ffi" else run_san_input(cmd, env, b"ffb 3\nffi\nffi\n")
+        nrun += 1
+        if why:
+            bad.append({"invocation": label, "why": why})
+    os.unlink(img)
+    return {"kind": "image", "base": "ext2 1M, 16 inodes", "operators": ["superblock: %s" % which], "case_index": idx}, bad, nrun
+
+
+def run_san_input(cmd, env, data):
+    e = dict(env)
+    e["ASAN_OPTIONS"] = "detect_leaks=0:abort_on_error=0:allocator_may_return_null=1:max_allocation_size_mb=2048"
+    e["UBSAN_OPTIONS"] = "print_stacktrace=1"
+    rc, out = e2v.sh(cmd, env=e, timeout=60, input=data)
+    m = SAN.search(out)
+    why = "hang (killed after 60s)" if rc == -9 else ("sanitizer / crash report: " + out[m.start():m.start() + 300].replace("\n", " | ")) if m else ("killed by signal %d" % -rc if rc < 0 else None)
+    return rc, why
+
+
 def journal_case(src, asan, idx, seed, tier):
     """journals with damaged blocks, and the log that consists of descriptor blocks only"""
     if idx % 8 == 5:
@@ -274,6 +314,8 @@ UNDO_DIRECTED = [
     [("block_size", 0)],
     [("fs_block_size", 0)],
     [("num_keys", 1 << 40)],
+    [("num_keys", 1 << 61)],         # 24 * 2^61 wraps to 0: the key array was allocated with 0 bytes (side remark of a seeding agent, repaired)
+    [("num_keys", (1 << 64) // 24 + 1)],
     [("key_offset", 1 << 40)],
     [("block_size", 1 << 30), ("fs_block_size", 1 << 30)],
     [("block_size", 1)],            # below the size of a key block header: e2undo -f skipped the lower bound (thorough-tier finding)
@@ -592,11 +634,12 @@ def run(res, replay=None):
     rows, dbad = dirwalk_corr(src, hexe, mexe, seed, 40 if tier == "quick" else 2000)
     erows, ebad = ea_value_corr(src, mexe, seed, 6 if tier == "quick" else 150)
     rrows, rbad = robust_corr(src, mexe, seed, tier)
-    n_img, n_j, n_a = (100, 48, 20) if tier == "quick" else (4000, 1500, 800)
+    n_img, n_j, n_a = (100, 48, 32) if tier == "quick" else (4000, 1500, 800)
     with concurrent.futures.ThreadPoolExecutor(14) as ex:
         o1 = list(ex.map(lambda i: image_case(src, asan, i, seed, tier), range(n_img)))
         o2 = list(ex.map(lambda i: journal_case(src, asan, i, seed, tier), range(n_j)))
         o3 = list(ex.map(lambda i: aux_case(src, asan, i, seed, tier), range(n_a)))
+        o3 += list(ex.map(lambda i: tiny_geometry_case(src, asan, i, seed, tier), range(3)))
     bad = []
     runs = 0
     for recipe, b, nrun in o1 + o2 + o3:
